@@ -93,6 +93,7 @@ def gen_case(r, maxports=4, globs=True, allow_collisions=True):
     kinds = []
     used_nodes = set()
     owned = set()          # leaves another process (the owner) has to declare
+    members = []           # processes / steps living inside glob children
     leaf_nodes = list(leaves)
 
     def pick_leaf():
@@ -202,6 +203,12 @@ def gen_case(r, maxports=4, globs=True, allow_collisions=True):
             elif sub == 'dict':
                 schema[port] = {'*': {'x': {'_default': 7}, 'y': {'_default': 8}}}
                 topo[port] = list(rel_path(ploc, G))
+                # some children exist because a process (or a step) of their own lives in them: it declares x
+                # (wired to its own compartment); y comes only from the glob's sub-schema
+                for c in range(nchild):
+                    if r.random() < 0.5:
+                        members.append({'path': list(G + ('c%d' % c, 'mem')), 'default': leaves[G + ('c%d' % c, 'x')],
+                                        'step': r.random() < 0.4})
             else:
                 # glob whose children are re-mapped by a dictionary sub-topology; the path to the glob
                 # store is given at the port level, inside the '*' dictionary, or split over both
@@ -226,7 +233,7 @@ def gen_case(r, maxports=4, globs=True, allow_collisions=True):
             owned.add(l)
     return {'schema': schema, 'topology': topo, 'ppath': list(ppath),
             'leaves': [[list(p), v] for p, v in leaves.items()], 'kinds': kinds,
-            'owned': [list(p) for p in sorted(owned)], 'owner_first': r.random() < 0.5}
+            'owned': [list(p) for p in sorted(owned)], 'owner_first': r.random() < 0.5, 'members': members}
 
 
 def owner_parts(case):
@@ -238,6 +245,12 @@ def owner_parts(case):
         schema['o%d' % i] = {'_default': lv[tuple(p)]}
         topology['o%d' % i] = tuple(p)
     return schema, topology
+
+
+def member_parts(case):
+    """[(path, schema, topology, is_step)] of the processes living inside glob children."""
+    return [(tuple(m['path']), {'M': {'x': {'_default': m['default']}}}, {'M': ()}, bool(m['step']))
+            for m in case.get('members', [])]
 
 
 def leaves_of(case):
